@@ -263,6 +263,17 @@ def _get(x: Any, key: str) -> Any:
     return x.get(key) if isinstance(x, dict) else None
 
 
+def _lq(v: Any) -> str:
+    """Liquid's string form of the values used under keys here."""
+    if v is None:
+        return ""
+    if v is True:
+        return "true"
+    if v is False:
+        return "false"
+    return str(v)
+
+
 def keyed_laws(arr: list[Any], key: str, out: V) -> None:
     truthy = lambda v: v is not None and v is not False  # noqa: E731
     w = call("where", arr, key)
@@ -324,6 +335,23 @@ def keyed_laws(arr: list[Any], key: str, out: V) -> None:
             b = render("{{ arr | " + f + ": x => x." + key + " | json }}", arr=arr)
             if a != b and not (a[0] != "ok" and b[0] != "ok"):
                 out.append((f"string-key-equals-lambda-form:{f}", [arr, key], a, b))
+        # applying a filter leaves the render as it found it: the same expression evaluates to the same value again, and
+        # a variable named like the lambda's parameter is what it was (also when the lambda is left at the first match)
+        for f in ("find", "find_index", "has", "where", "reject", "map", "sort", "uniq", "sum"):
+            expr = "{{ items | " + f + ": x => x." + key + " | json }}"
+            r = render("{% assign x = 'outer' %}" + expr + "@{{ x }}@" + expr + "@{% for y in (1..3) %}" + expr + "{% endfor %}@{{ x }}{{ i }}", items=arr, i="I")
+            if r[0] == "ok":
+                parts = r[1].split("@")
+                one = parts[0]
+                if not (len(parts) == 5 and parts[1] == "outer" and parts[2] == one and parts[3] == one * 3 and parts[4] == "outerI"):
+                    out.append((f"{f}-leaves-the-render-context-unchanged", [arr, key], [one, "outer", one, one * 3, "outerI"], parts))
+        # an argument that is a template string (not a plain path) is evaluated at every application: the same filter
+        # node applied once per loop iteration sees each item's value
+        r = render("{% for it in items %}{{ 'p' | append: '${it." + key + "}!' }},{% endfor %}", items=arr)
+        if r[0] == "ok":
+            want = "".join("p" + _lq(_get(it, key)) + "!," for it in arr)
+            if r[1] != want:
+                out.append(("template-string-argument-is-evaluated-at-every-application", [arr, key], want, r[1]))
         # keyed sort is an ordered permutation
         for name in ("sort", "sort_natural", "sort_numeric"):
             sk = call(name, arr, key)
